@@ -28,8 +28,10 @@ INFO = dict(
                "correspondence, not verified.  Receivers-unchanged is a value-model fact plus a check on real objects.",
     rule="random programs (depth<=8, base lists of length 0..7, all constructors, all index container kinds); a case "
          "is one program; distinct = distinct token sequence; non-trivial = depth >= 2",
-    partial=["receivers-unchanged is proved in the value model only; aliasing between the Python lists is observed "
-             "on the real objects (every intermediate list re-read after all later operations)"],
+    partial=["receivers-unchanged: proved at heap level for the model (hrun_frame: no operation sequence writes an "
+             "existing list object) and tied to the code by heap histories with aliased operands and by the measured "
+             "table of receiver attributes each operation writes (must be empty); that CPython list methods used by "
+             "the code do not mutate their operands is modelled, not verified"],
     assumptions=["callables are deterministic functions of their argument (instrumented test callables)"],
     design_ref="DESIGN.md section 6, C19")
 IMPORTS = ["MenpoModel.Props.C19"]
@@ -44,6 +46,10 @@ THEOREMS = [
     "MenpoModel.LazyList.select_elements",
     "MenpoModel.LazyList.repeat_elements",
     "MenpoModel.LazyList.sliceIndices_in_range",
+    "MenpoModel.LazyList.hstep_frame",
+    "MenpoModel.LazyList.hrun_frame",
+    "MenpoModel.LazyList.hstep_result",
+    "MenpoModel.LazyList.read_after_ops_unchanged",
 ]
 
 
@@ -380,6 +386,117 @@ def shrink(ctx):
     ctx.failures[:] = out
 
 
+# ---------------------------------------------------------------- heap histories: operations on aliased list objects
+
+def heap_history(ctx, rng, lines, pending):
+    """a sequence of operations whose operands are earlier list objects (aliasing, re-use, refused operations);
+    afterwards EVERY list object is re-read and compared with the ordinary-list reference and with the model"""
+    from menpo.base import LazyList
+    site = "C19/heap"
+    w = World()
+    objs, refs, ops_tok, ops_py = [], [], [], []
+    n_ops = rng.randint(3, 10)
+    for _ in range(n_ops):
+        kind = rng.choice(["hb", "hm", "he", "hsi", "hss", "hr", "ha", "hp", "hc"]) if objs else "hb"
+        a = rng.randrange(len(objs)) if objs else 0
+        try:
+            if kind == "hb":
+                b, n = rng.randrange(3), rng.randint(0, 5)
+                tok, new, ref = ["hb", b, n], (lambda: LazyList.init_from_index_callable(w.base(b), n)), \
+                    [base_val(b, i) for i in range(n)]
+            elif kind == "hm":
+                f = rng.randrange(4)
+                tok, new, ref = ["hm", f, a], (lambda: objs[a].map(w.fn(f))), [fn_val(f, v) for v in refs[a]]
+            elif kind == "he":
+                m = len(refs[a]) if rng.random() < 0.85 else len(refs[a]) + 1
+                fs = [rng.randrange(4) for _ in range(m)]
+                tok, new = ["he", m] + fs + [a], (lambda: objs[a].map([w.fn(f) for f in fs]))
+                ref = [fn_val(f, v) for f, v in zip(fs, refs[a])] if m == len(refs[a]) else "value"
+            elif kind == "hsi":
+                n = len(refs[a])
+                ints = [rng.randint(-n, n - 1) if n and rng.random() < 0.95 else n + 1 for _ in range(rng.randint(0, 4))]
+                tok, new = ["hsi", len(ints)] + ints + [a], (lambda: objs[a][list(ints)])
+                try:
+                    ref = [refs[a][i] for i in ints]
+                except IndexError:
+                    ref = "index"
+            elif kind == "hss":
+                n = len(refs[a])
+                bd = lambda: None if rng.random() < 0.3 else rng.randint(-n - 2, n + 2)
+                sl = (bd(), bd(), rng.choice([None, 1, 2, -1, -2, 3]))
+                tok, new, ref = ["hss"] + ["N" if x is None else x for x in sl] + [a], (lambda: objs[a][slice(*sl)]), \
+                    refs[a][slice(*sl)]
+            elif kind == "hr":
+                n = rng.randint(0, 3)
+                tok, new, ref = ["hr", n, a], (lambda: objs[a].repeat(n)), [v for v in refs[a] for _ in range(n)]
+            elif kind == "ha":
+                b = rng.randrange(len(objs))
+                tok, new, ref = ["ha", a, b], (lambda: objs[a] + objs[b]), refs[a] + refs[b]
+            elif kind == "hp":
+                vs = [rng.randint(-9, 9) for _ in range(rng.randint(0, 3))]
+                tok, new, ref = ["hp", len(vs)] + vs + [a], (lambda: objs[a] + list(vs)), refs[a] + vs
+            else:
+                tok, new, ref = ["hc", a], (lambda: objs[a].copy()), list(refs[a])
+            ops_tok.append(" ".join(str(x) for x in tok))
+            try:
+                r = new()
+                got_err = None
+            except IndexError:
+                r, got_err = None, "index"
+            except ValueError:
+                r, got_err = None, "value"
+            exp_err = ref if isinstance(ref, str) else None
+            rp = {"ops": list(ops_tok)}
+            if not ctx.check(got_err == exp_err, site, "error-kind",
+                             "operation %r: ordinary lists give %s, LazyList gives %s" % (ops_tok[-1], exp_err or "ok", got_err or "ok"), rp):
+                return
+            if got_err is None:
+                objs.append(r)
+                refs.append(ref)
+        except Exception as e:      # noqa: BLE001
+            ctx.fail(site, "raises", "operation %r raised %s" % (ops_tok[-1] if ops_tok else kind, type(e).__name__), {"ops": list(ops_tok)})
+            return
+    built = w.take()
+    rp = {"ops": ops_tok}
+    ctx.check(not built, site, "construction-evaluated", "the history evaluated callables: %r" % built[:5], rp)
+    cells = []
+    for k, (o, ref) in enumerate(zip(objs, refs)):
+        try:
+            vals = [o[j] for j in range(len(o))]
+        except Exception as e:      # noqa: BLE001
+            ctx.fail(site, "read-raises", "reading list object %d after the history raised %s" % (k, type(e).__name__), rp)
+            return
+        w.take()
+        ctx.check(vals == ref, site, "receiver-changed",
+                  "list object %d no longer holds what the operation that created it returned: %r vs %r" % (k, vals, ref), rp)
+        cells.append(" | %d%s" % (len(vals), "".join(" %d" % v for v in vals)))
+    ctx.case(("heap", tuple(ops_tok)), nontrivial=len(objs) >= 3, sample={"heap_history": ops_tok})
+    ctx.count("heap-history-ops", len(ops_tok))
+    cid = "h%d" % len(lines)
+    lines.append("%s heap %d %s" % (cid, len(ops_tok), " ".join(ops_tok)))
+    pending[cid] = ("ok %d" % len(objs) + "".join(cells), rp)
+
+
+def receiver_write_table():
+    """for every operation: the instance attributes of the RECEIVER (and of a second operand) it writes"""
+    from menpo.base import LazyList
+    import numpy as np
+    w = World()
+    table = {}
+    mk = lambda: LazyList.init_from_index_callable(w.base(0), 4).map(w.fn(1))
+    other = mk()
+    acts = {
+        "map": lambda r: r.map(w.fn(2)), "map_each": lambda r: r.map([w.fn(0)] * 4), "repeat": lambda r: r.repeat(2),
+        "copy": lambda r: r.copy(), "add_lazy": lambda r: r + other, "add_self": lambda r: r + r, "add_plain": lambda r: r + [1, 2],
+        "getitem_int": lambda r: r[1], "getitem_slice": lambda r: r[::-1], "getitem_list": lambda r: r[[0, 0, 3]],
+        "getitem_array": lambda r: r[np.array([1, 2])], "len": lambda r: len(r), "iter": lambda r: list(r),
+    }
+    for name, act in acts.items():
+        r = mk()
+        table[name] = sorted(set(common.attr_writes(r, lambda: act(r))) | set(common.attr_writes(other, lambda: act(r))))
+    return table
+
+
 def search(ctx):
     """directed search after a broken tie: many more programs through the oracle only"""
     rng = ctx.rng
@@ -410,7 +527,19 @@ def run(ctx):
         progs[cid] = p
         impl_out[cid] = obs
         lines.append(cid + " all " + " ".join(tk))
+    pend_heap = {}
+    for _ in range(ctx.n(300, 6000)):
+        heap_history(ctx, rng, lines, pend_heap)
+    table = receiver_write_table()
+    ctx.notes["receiver_write_table"] = table
+    ctx.case(("write-table",), nontrivial=True)
+    bad = {k: v for k, v in table.items() if v}
+    ctx.check(not bad, "C19/receiver-attributes", "written",
+              "operations wrote instance attributes of the list they were applied to: %r" % bad, {"table": table})
     model = common.run_driver(PROP, lines)
+    for cid, (obs, rp) in pend_heap.items():
+        if model[cid] != obs:
+            ctx.mismatch("heap", "model %r vs implementation %r" % (model[cid][:200], obs[:200]), rp)
     for cid, obs in impl_out.items():
         if obs is None:
             continue  # oracle already failed on this case
